@@ -631,6 +631,12 @@ def c12_alloc_faults(ctx, vd, binary, scratch, quick):
     vd.reports.append(("alloc_default", {"scenario": "c12alloc", "evaluations": aborted, "distinct": aborted, "distinct_nontrivial": aborted,
                                          "rule": "processes that aborted on the refused allocation (an accepted outcome: never a wrong answer)",
                                          "counters": {"fault.allocation_refused": aborted, "probe.alloc_fault_outcome_abort": aborted}, "samples": [], "violation_count": 0, "wall_s": 0}))
+    import glob
+    for f in glob.glob(os.path.join(scratch, "allocfault_*.bin")):   # left behind by the processes that aborted
+        try:
+            os.remove(f)
+        except OSError:
+            pass
     ctx.log("alloc_default/c12alloc: %d processes (%d aborted on the refused allocation) in %.1fs" % (len(cases), aborted, time.time() - t))
 
 
